@@ -31,6 +31,10 @@ func c12Spec(rng *rand.Rand, i int) (*SessSpec, string) {
 		kind = "rebalanced"
 	case 13:
 		kind = "finite-complete"
+	case 6:
+		kind = "end-in-rebalance"
+	case 12:
+		kind = "reopen-vs-rebalance"
 	}
 	reqs := map[int]int{}
 	for vb := 0; vb < sp.NumVB; vb++ {
@@ -80,6 +84,24 @@ func c12Spec(rng *rand.Rand, i int) (*SessSpec, string) {
 			}
 		}
 		sp.Steps = append(sp.Steps, Step{Op: "barrier"}, Step{Op: "metrics"}, Step{Op: "waitstop", Ms: 150})
+	case "end-in-rebalance":
+		// the server ends a vBucket stream with a recoverable status while a rebalance is closing the streams (held inside
+		// BeforeStreamStop, or right after the close): after the rebalance every vBucket is streamed, once, and nothing stops
+		sp.Membership = "dynamic"
+		sp.FirstInfo = [2]int{1, 1}
+		h := []string{"BSS", "ASS"}[rng.Intn(2)]
+		vb := rng.Intn(sp.NumVB)
+		sp.Steps = append(sp.Steps, Step{Op: "holdeh", Sel: h}, Step{Op: "rebalanceapi"}, Step{Op: "waitheld", Sel: h}, Step{Op: "end", VB: vb, St: transientStatus[rng.Intn(4)]}, Step{Op: "sleep", Ms: 50},
+			Step{Op: "releaseeh"}, Step{Op: "waitrebalance", N: 1}, Step{Op: "sleep", Ms: 1300}, Step{Op: "barrier"}, Step{Op: "append", VB: vb, Items: genSnap(rng, o, &ctr)}, Step{Op: "barrier"}, Step{Op: "metrics"}, Step{Op: "waitstop", Ms: 150})
+	case "reopen-vs-rebalance":
+		// a transient end is followed at once by a rebalance; the goroutine that re-opens the ended vBucket is descheduled
+		// (injected delay at hook point reopen.start) until the rebalance has closed and reopened everything: the vBucket
+		// must end up streamed once, and the stale re-open must neither crash the client nor keep retrying against it
+		sp.Membership = "dynamic"
+		sp.FirstInfo = [2]int{1, 1}
+		vb := rng.Intn(sp.NumVB)
+		sp.Steps = append(sp.Steps, Step{Op: "armhook", Sel: "reopen.start", N: 1, Ms: 150 + rng.Intn(100)}, Step{Op: "end", VB: vb, St: transientStatus[rng.Intn(4)]}, Step{Op: "sleep", Ms: 10},
+			Step{Op: "rebalanceapi"}, Step{Op: "waitrebalance", N: 1}, Step{Op: "sleep", Ms: 6500}, Step{Op: "barrier"}, Step{Op: "append", VB: vb, Items: genSnap(rng, o, &ctr)}, Step{Op: "barrier"}, Step{Op: "metrics"}, Step{Op: "waitstop", Ms: 150})
 	case "finite-complete":
 		// a finite run whose stored checkpoints already are at every vBucket's high seqno: each stream ends at once and the
 		// client stops on its own
@@ -207,6 +229,17 @@ func OracleEnds(tr *Trace) ([]Finding, int) {
 						continue
 					}
 					nx := segs[i+1]
+					// when a rebalance reopened everything in between, the next request of this vBucket is the rebalance's own
+					// (from the stored checkpoint: C11's clause), not the re-open after the end
+					byRebalance := false
+					for _, r := range tr.Log {
+						if r.K == "eh.BSStart" && r.T > sg.EndT && r.T < nx.ReqT {
+							byRebalance = true
+						}
+					}
+					if byRebalance {
+						continue
+					}
 					want := tuple{sg.ReqUUID, sg.Start, sg.SnapS, sg.SnapE}
 					for _, r := range tr.Log {
 						if r.K == "cons.track" && r.VB == vb && r.T > sg.ReqT && r.T < nx.ReqT {
